@@ -3,6 +3,7 @@ import PikaVerif.Lemmas.CVFin
 import PikaVerif.Lemmas.CVCov
 import PikaVerif.Lemmas.CVSolo
 import PikaVerif.Lemmas.CVCnt
+import PikaVerif.Lemmas.CVWf
 /-!
 # C07t — termination / bounded progress of the condition-variable operations (follow-up of C07)
 
@@ -255,6 +256,88 @@ theorem C07t_covered_by_notify_one (n : Nat) (f : Bool) (prog : Nat → List Op)
   · exact Or.inr (Or.inl hb)
   · exact Or.inr (Or.inr hr)
 
+/-! ## Programs that respect the lock discipline
+
+`CV.wf false l`: started without the user lock, every `wait` / `wait(pred)` / `wait_for` /
+stop-token wait / `set` / `unlock` of `l` is executed with the lock held, every `lock` without it,
+and `l` ends without it (`notify_one` / `notify_all` / `request_stop` are allowed in both states). -/
+
+/-- **Final states of disciplined programs.**  If every thread's program respects the lock
+    discipline, the final state of a maximal run has *every thread finished with its whole program
+    executed, except waiters parked in an untimed wait with no notification owed to them*. -/
+theorem C07t_final_state_wf (n : Nat) (f : Bool) (prog : Nat → List Op) (hwf : ∀ t, wf false (prog t) = true)
+    (log : List Ev) (p : PSt) (h : runLog pstep (pinit n f prog) log = some p) (hs : PStuck p) :
+    ∀ t, t < n → (p.s.pc t = .fin ∧ p.prog t = []) ∨ ParkedUnowed p.s log t := by
+  have hw : WfOk p := runLog_wfOk log _ p (good_init n f) (wfOk_init n f prog hwf) h
+  have hlog := runLog_pstep_step log _ p h
+  have hreach : Reachable p.s := ⟨n, f, log, hlog⟩
+  have hnoref : ∀ x, x < p.s.n → ¬ Refused p x := by
+    intro x hx ⟨hi, o, rest, hp, hr⟩
+    have := hw x; rw [hp] at this
+    exact inv_accepted p.s x o rest hx hi this hr
+  intro t ht
+  rcases C07t_final_state n f prog log p h hs t ht with hf | hp | hb | hr
+  · exact Or.inl hf
+  · exact Or.inr hp
+  · exfalso
+    obtain ⟨_, x, hux, _, hx⟩ := hb
+    have hxn := hreach.inv.1.uConv x hux
+    have hfin : FinOk p := runLog_finOk log _ p (by intro t ht; simp [pinit, init] at ht) h
+    rcases hx with hi | hf
+    · cases hp : p.prog x with
+      | nil =>
+        have := hs (.done x)
+        simp [pstep, hp, step, hi, hxn] at this
+      | cons o rest =>
+        have := hs (.inv x o)
+        exact hnoref x hxn ⟨hi, o, rest, hp, by simpa [pstep, hp] using this⟩
+    · have := hw x
+      rw [hfin x hf] at this
+      simp [heldAfter, hf, wf, hux] at this
+  · exfalso
+    have hn : p.s.n = n := runLog_n log _ _ hlog
+    have hxn : t < p.s.n := by omega
+    exact hnoref t hxn hr
+
+/-- **Covered disciplined programs return.**  For a program that respects the lock discipline: if
+    every thread parked at the end of a maximal run was covered after its last `cv.enq` by a
+    `notify_all`, or by as many `notify_one` pops as entries were linked when it enqueued (log
+    order), then the hypothesis is contradictory for parked threads — **every maximal run ends with
+    all operations returned and every thread finished.** -/
+theorem C07t_covered_all_return_wf (n : Nat) (f : Bool) (prog : Nat → List Op)
+    (hwf : ∀ t, wf false (prog t) = true) (log : List Ev) (p : PSt)
+    (h : runLog pstep (pinit n f prog) log = some p) (hs : PStuck p)
+    (hcov : ∀ t, t < n → p.s.pc t = .susp false →
+      (obsGLog gh0 log).cov t = true ∨ (obsKLog gk0 log).z t ≤ (obsKLog gk0 log).k t) :
+    ∀ t, t < n → p.s.pc t = .fin ∧ p.prog t = [] := by
+  intro t ht
+  rcases C07t_final_state_wf n f prog hwf log p h hs t ht with hf | hp
+  · exact hf
+  · exfalso
+    rcases hcov t ht hp.1 with hc | hc
+    · rw [hp.2.2.2.2.2] at hc; simp at hc
+    · have h2 := C07t_linked_position n f log p.s t (runLog_pstep_step log _ p h) hp.2.2.2.1
+      omega
+
+/-- **Predicate waiters of disciplined programs return true.**  For a program that respects the
+    lock discipline: if a maximal run ends with the flag true and a `notify_all` was issued after
+    the flag was last set (log order: not `dirty`), every thread whose last operation was a
+    predicate wait has finished its program (its `wait(pred)` returned — with the predicate true,
+    `C07_wait_pred_returns_true`). -/
+theorem C07t_pred_covered_wf (n : Nat) (f : Bool) (prog : Nat → List Op)
+    (hwf : ∀ t, wf false (prog t) = true) (log : List Ev) (p : PSt)
+    (h : runLog pstep (pinit n f prog) log = some p) (hs : PStuck p)
+    (hflag : p.s.flag = true) (hd : (obsGLog gh0 log).dirty = false) :
+    ∀ t, t < n → isPred (p.s.curOp t) = true → p.s.pc t = .fin ∧ p.prog t = [] := by
+  intro t ht hpr
+  rcases C07t_final_state_wf n f prog hwf log p h hs t ht with hf | hp
+  · exact hf
+  · exfalso
+    have hlog := runLog_pstep_step log _ p h
+    have hcov := cov_of_runLog log _ p.s gh0 (inv_init n f) (inv2_init n f) (cov_init n f) hlog
+    have := hcov.j3 t hpr (by rw [hp.1]; rfl) hflag hd
+    rw [hp.2.2.2.2.2] at this; simp at this
+
 /-! ## Non-vacuity and the classic lost wake-up -/
 
 /-- the classic shape without a predicate: thread 0 `lock; wait; unlock`, thread 1
@@ -316,6 +399,12 @@ example : ∃ p, runLog pstep (pinit 2 false lostProg) goodRun = some p ∧ PStu
     `C07t_covered_by_notify_one`) -/
 example : (obsKLog gk0 lostRun).z 0 = 1 ∧ (obsKLog gk0 lostRun).k 0 = 0 ∧
     (obsKLog gk0 goodRun).z 0 = 1 ∧ (obsKLog gk0 goodRun).k 0 = 1 := by decide
+
+/-- both example programs respect the lock discipline -/
+example : ∀ t, wf false (lostProg t) = true := by
+  intro t; simp only [lostProg]; split
+  · rfl
+  · split <;> rfl
 
 /-- the predicate shape: thread 0 `lock; wait(pred); unlock`, thread 1
     `lock; flag = true; notify_all; unlock` -/
